@@ -163,6 +163,84 @@ theorem C18_thread_isolation (t : Nat) (ops : List Op) :
       (run {} (ops.filter (fun op => !foreignTagOp t op))).out.filter (fun p => p.1 == t) :=
   (agree_run t ops {} {} ⟨rfl, rfl, rfl, rfl⟩).2.2.2
 
+/-! ### Nothing arrives at a logger once it has been removed -/
+
+/-- Every installed logger of `w` has a number ≥ `N`, and so will every logger installed later. -/
+def Fresh (N : Nat) (w : World) : Prop :=
+  (match w.g with | .installed id _ => N ≤ id | _ => True) ∧ N ≤ w.nextId
+
+theorem step_fresh (N : Nat) (w : World) (op : Op) (h : Fresh N w) :
+    Fresh N (step w op) ∧ ∃ new, (step w op).out = w.out ++ new ∧
+      ∀ p ∈ new, ∀ id e, p.2 = Outcome.toLogger id e → N ≤ id := by
+  obtain ⟨hg, hn⟩ := h
+  cases op with
+  | addTag t tag => exact ⟨⟨hg, hn⟩, [], by simp [step], by simp⟩
+  | clear t => exact ⟨⟨hg, hn⟩, [], by simp [step], by simp⟩
+  | setLogger =>
+    simp only [step]
+    cases hgw : w.g with
+    | installed id alive => rw [hgw] at hg; exact ⟨⟨by simpa [hgw] using hg, hn⟩, [], by simp, by simp⟩
+    | none => exact ⟨⟨by simpa using hn, by simp; omega⟩, [], by simp, by simp⟩
+    | default => exact ⟨⟨by simpa using hn, by simp; omega⟩, [], by simp, by simp⟩
+  | dropGuard =>
+    simp only [step]
+    cases hgw : w.g with
+    | installed id alive => exact ⟨⟨by simp, hn⟩, [], by simp, by simp⟩
+    | none => exact ⟨⟨by simp [hgw], hn⟩, [], by simp, by simp⟩
+    | default => exact ⟨⟨by simp [hgw], hn⟩, [], by simp, by simp⟩
+  | dropReceiver =>
+    simp only [step]
+    cases hgw : w.g with
+    | installed id alive => rw [hgw] at hg; exact ⟨⟨by simpa using hg, hn⟩, [], by simp, by simp⟩
+    | none => exact ⟨⟨by simp [hgw], hn⟩, [], by simp, by simp⟩
+    | default => exact ⟨⟨by simp [hgw], hn⟩, [], by simp, by simp⟩
+  | log t level tags =>
+    simp only [step]
+    cases hgw : w.g with
+    | none => exact ⟨⟨by simp, hn⟩, _, rfl, by simp⟩
+    | default => exact ⟨⟨by simp [hgw], hn⟩, _, rfl, by simp⟩
+    | installed id alive =>
+      rw [hgw] at hg
+      cases alive
+      · exact ⟨⟨by simpa [hgw] using hg, hn⟩, _, rfl, by simp⟩
+      · refine ⟨⟨by simpa [hgw] using hg, hn⟩, _, rfl, ?_⟩
+        intro p hp id' e he
+        simp only [List.mem_singleton] at hp
+        subst hp
+        simp only [Outcome.toLogger.injEq] at he
+        have : id = id' := he.1
+        subst this
+        simpa using hg
+
+theorem run_fresh (N : Nat) (ops : List Op) (w : World) (h : Fresh N w) :
+    ∃ new, (run w ops).out = w.out ++ new ∧ ∀ p ∈ new, ∀ id e, p.2 = Outcome.toLogger id e → N ≤ id := by
+  induction ops generalizing w with
+  | nil => exact ⟨[], by simp [run], by simp⟩
+  | cons op ops ih =>
+    obtain ⟨hf, new1, ho1, hn1⟩ := step_fresh N w op h
+    obtain ⟨new2, ho2, hn2⟩ := ih (step w op) hf
+    refine ⟨new1 ++ new2, ?_, ?_⟩
+    · simp only [run, List.foldl_cons] at ho2 ⊢
+      rw [ho2, ho1, List.append_assoc]
+    · intro p hp id e he
+      rcases List.mem_append.mp hp with h1 | h2
+      · exact hn1 p h1 id e he
+      · exact hn2 p h2 id e he
+
+/-- **A removed logger gets nothing more.**  In every history, once the guard of a logger has been dropped, every
+    later logging call — by any thread, however the calls interleave with further installs and removals — is delivered
+    to the stdout default or to a logger installed *afterwards* (its number is at least the number of loggers installed
+    so far), never to the removed one (whose number is smaller: numbers are handed out in order). -/
+theorem C18_removed_logger_silent (w : World) (ops : List Op) :
+    ∃ new, (run (step w .dropGuard) ops).out = (step w .dropGuard).out ++ new ∧
+      ∀ p ∈ new, ∀ id e, p.2 = Outcome.toLogger id e → w.nextId ≤ id := by
+  apply run_fresh
+  simp only [step]
+  cases hgw : w.g with
+  | installed id alive => exact ⟨by simp, Nat.le_refl _⟩
+  | none => exact ⟨by simp [hgw], Nat.le_refl _⟩
+  | default => exact ⟨by simp [hgw], Nat.le_refl _⟩
+
 /-- Non-vacuity: two threads interleaved; thread 0's event carries its own tag only. -/
 example : (run {} [.addTag 1 ⟨['x'], .int 1⟩, .addTag 0 ⟨['y'], .int 2⟩, .setLogger, .log 0 .info [], .log 1 .info []]).out =
     [(0, .toLogger 0 ⟨.info, [⟨['y'], .int 2⟩]⟩), (1, .toLogger 0 ⟨.info, [⟨['x'], .int 1⟩]⟩)] := by decide
